@@ -424,6 +424,31 @@ func (w *world) afterEvent(n *simNode, ev evInfo, bf nodeBefore, outs []string, 
 			w.checkC11(n, m, bf, outs, sent, av)
 		}
 	}
+	// ---- C10 (phase order): a COMMIT for (v, x) is sent only over a prepared certificate for exactly (v, x) - the
+	// proposal and PREPAREs of quorum weight with the leader's - or over a quorum of COMMITs for it; judged on the
+	// harness's own record of what the node stored (per true hash, whatever the storage does with its keys)
+	for _, sm := range sent {
+		if sm.Kind != "C" || sm.Ref.Height != bf.h {
+			continue
+		}
+		v, x := sm.Ref.View, sm.Ref.Hash
+		ld := w.leaderFor(bf.h, v, n.id)
+		hasPP := n.stored[storeKey(1, bf.h, v, x, ld)]
+		pids, cids := []uint64{ld}, []uint64{}
+		for id := uint64(0); id < uint64(w.n); id++ {
+			if id != ld && n.stored[storeKey(2, bf.h, v, x, id)] {
+				pids = append(pids, id)
+			}
+			if n.stored[storeKey(3, bf.h, v, x, id)] {
+				cids = append(cids, id)
+			}
+		}
+		q := w.quorumAt(bf.h, n.id)
+		if !(hasPP && w.weightOf(bf.h, pids, n.id) >= q) && !(w.weightOf(bf.h, cids, n.id) >= q) {
+			w.rep.finding("C10", "commit-without-certificate", fmt.Sprintf("node %d sent COMMIT for (h=%d, v=%d, hash %d) holding the proposal: %v, PREPAREs (with the leader) of weight %d and COMMITs of weight %d for exactly that hash; quorum is %d",
+				n.id, bf.h, v, x, hasPP, w.weightOf(bf.h, pids, n.id), w.weightOf(bf.h, cids, n.id), q), w.traceInput())
+		}
+	}
 	if ev.kind == "deliver" && ev.msg.Kind == "NV" && ev.msg.NVHeight > bf.h {
 		n.aheadNV = append(n.aheadNV, ev.msg)
 	}
